@@ -719,6 +719,66 @@ def payload_for(rng, name):
     return bytes(pl)
 
 
+def fletcher(bs):
+    a = b = 0
+    for x in bs:
+        a = (a + x) & 0xff
+        b = (b + a) & 0xff
+    return bytes([a, b])
+
+
+def lookalike_payloads(rng, name):
+    """well-formed payloads whose own bytes look like the layers around them: a complete wire frame of the message itself (sync, own
+    class/id, a length field that fits, a checksum that is right), the start of one, an acknowledgement naming the message, an
+    NMEA sentence.  A payload is a payload whatever it looks like."""
+    cls = find_class(name)
+    c, i = cls.CID.cls, cls.CID.id
+    size = CLASSES[name]
+    if size:
+        sizes, cnt_at = [size], None
+    elif name == 'UbxCfgGnss':
+        sizes, cnt_at = [4 + 8 * i], 3                 # the count byte is where the id of the look-alike frame sits
+    elif name == 'UbxCfgEsfla':
+        sizes, cnt_at = [4 + 8 * 0x62], 1
+    elif name == 'UbxEsfStatus':
+        sizes, cnt_at = [16 + 4 * n for n in (0, 1, 5, 40)], 15
+    else:
+        return []
+    out = []
+    for L in sizes:
+        if L < 10:
+            continue
+        base = bytearray(rng.randrange(256) for _ in range(L))
+        if name == 'UbxEsfStatus':
+            base[15] = (L - 16) // 4
+        # a complete frame of the message itself
+        pl = bytearray(base)
+        pl[0:6] = bytes([0xb5, 0x62, c, i, (L - 8) & 0xff, (L - 8) >> 8])
+        pl[-2:] = fletcher(pl[2:-2])
+        out.append(bytes(pl))
+        # … with a wrong checksum, and cut short: only the beginning looks like one
+        pl2 = bytearray(pl)
+        pl2[-1] ^= 0x40
+        out.append(bytes(pl2))
+        # an acknowledgement naming the message, then the rest
+        pl3 = bytearray(base)
+        ack = bytes([0xb5, 0x62, 5, 1, 2, 0, c, i])
+        pl3[0:10] = ack + fletcher(ack[2:])
+        if cnt_at is not None and cnt_at < 10:
+            continue_ok = (name == 'UbxCfgGnss' and 4 + 8 * pl3[3] == L) or (name == 'UbxCfgEsfla' and 4 + 8 * pl3[1] == L)
+            if continue_ok:
+                out.append(bytes(pl3))
+        else:
+            out.append(bytes(pl3))
+        # an NMEA sentence
+        pl4 = bytearray(base)
+        t = b'$GPGGA,1,2*33\r\n'[:min(15, L)]
+        pl4[0:len(t)] = t
+        if cnt_at is None or cnt_at >= len(t):
+            out.append(bytes(pl4))
+    return [p for p in out if wellformed(name, p)]
+
+
 def model_line_fields(line):
     p = line.split('|')
     if p[0] == 'fieldsagain':
@@ -913,6 +973,8 @@ def gen_fields(rng, n, profile):
                 yield f'fields|{name}|' + bytes(pl).hex()
         for _ in range(n):
             yield f'fields|{name}|' + payload_for(rng, name).hex()
+        for pl in lookalike_payloads(rng, name):
+            yield f'fields|{name}|' + pl.hex()
         for how in range(4):
             pl, pl2 = payload_for(rng, name), payload_for(rng, name)
             if wellformed(name, pl) and wellformed(name, pl2):
@@ -1934,6 +1996,19 @@ def real_gnss(line):
             else:
                 f.data = bytearray(pl)
             f.unpack()
+        elif tail.startswith('K'):
+            # another CFG-GNSS frame is alive in the process (a snapshot kept, a second receiver's answer): decoded before or after this
+            # one, with as many blocks or not, and a helper is used on IT first.  Nothing of that may show in this frame.
+            order, hop, hsys, hbl = tail[1:].split('/')
+            opl = payload([tuple(map(int, e.split(':'))) for e in hbl.split(',')] if hbl else [])
+            if order == '0':
+                g = UbxCfgGnss.construct(opl)
+                f = UbxCfgGnss.construct(pl)
+            else:
+                f = UbxCfgGnss.construct(pl)
+                g = UbxCfgGnss.construct(opl)
+            {'enable': lambda: g.enable_gnss(int(hsys)), 'disable': lambda: g.disable_gnss(int(hsys)), 'gps_glonass': g.gps_glonass,
+             'gps_galileo_beidou': g.gps_galileo_beidou}[hop]()
         else:
             if tail.startswith('T'):
                 # earlier in this process a message announcing as many blocks arrived cut short (checksum fine, payload too short): decoding it
@@ -2004,6 +2079,11 @@ def gen_gnss(rng, n, profile):
             hids = rng.sample(range(8), rng.randrange(0, 9))
             hbl = ','.join(f'{i}:{rng.choice(flags)}' for i in hids)
             past = f'|H{rng.randrange(4)}/{rng.choice(["enable", "disable", "gps_glonass", "gps_galileo_beidou"])}/{rng.randrange(8)}/{hbl}'
+        elif rng.random() < 0.3:
+            # another frame alive next to this one: as many blocks (most of the time), other systems and flags
+            hids = [rng.randrange(8) for _ in ids] if rng.random() < 0.7 else rng.sample(range(8), rng.randrange(0, 9))
+            hbl = ','.join(f'{i}:{rng.choice(flags)}' for i in hids)
+            past = f'|K{rng.randrange(2)}/{rng.choice(["enable", "disable", "gps_glonass", "gps_galileo_beidou"])}/{rng.randrange(8)}/{hbl}'
         yield f'gnss|{op}|{rng.randrange(8)}|{bl}' + (past or rng.choice(['', '', '|P']))
     # messages with many blocks (more than any receiver has systems: the count byte is the receiver's), now and then after one that
     # announced as many and came cut short
